@@ -56,6 +56,7 @@ def run_history(writes, fin, log=None, probes=None, as_type="bytes"):
     f = SimFile(log=log, name="disk")
     b = m["mciipm"].Block1014(f)
     pos = 0
+    reuse = None
     try:
         for n in writes:
             if probes is not None:
@@ -72,6 +73,15 @@ def run_history(writes, fin, log=None, probes=None, as_type="bytes"):
             if log is not None:
                 log.emit("blocker", "write", n)
             data = posbytes(pos, n)
+            if as_type == "reused_buffer":
+                # a copy loop that re-uses one buffer: the caller overwrites it right after write() returns
+                if reuse is None or len(reuse) < n:
+                    reuse = bytearray(max(n, 4096))
+                reuse[:n] = data
+                b.write(memoryview(reuse)[:n])
+                reuse[:n] = b"\xee" * n
+                pos += n
+                continue
             if as_type == "bytearray":
                 data = bytearray(data)
             elif as_type == "memoryview":
@@ -181,7 +191,7 @@ def gen_seeded(seed_i):
            "finalise": kn.choice(FINS)}
     r = kn.random()
     if r < 0.10:
-        scn["as_type"] = kn.choice(["bytearray", "memoryview"])
+        scn["as_type"] = kn.choice(["bytearray", "memoryview", "reused_buffer", "reused_buffer"])
     elif r < 0.13:
         # very many small writes (call-count dependent behaviour)
         wl = st["workload"]
@@ -245,6 +255,19 @@ def run_task(task):
                     for fl in fails:
                         if len(part["fails"]) < 6:
                             fl["scenario"] = {"kind": "blocker_history", "writes": writes, "finalise": fin}
+                            part["fails"].append(fl)
+        if task["lo"] == 7900:
+            # single writes of a megabyte and more (recursion depth, chunking)
+            for n in (1_000_000, 1_048_576, 1012 * 1100, 3_000_000):
+                for pre in ([], [1012], [500]):
+                    writes = pre + [n, 3]
+                    fails, image, f = judge_history(writes, "finalise", probes=c)
+                    part["evals"] += 1
+                    part["nontrivial"] += 1
+                    c["probe:single_write_of_1MB_or_more"] += 1
+                    for fl in fails:
+                        if len(part["fails"]) < 6:
+                            fl["scenario"] = {"kind": "blocker_history", "writes": writes, "finalise": "finalise"}
                             part["fails"].append(fl)
         part["runs"] += 1
     else:
